@@ -20,6 +20,21 @@ CLAIMED = {
    text="C02_text_denotes_document / C02_pretty_denotes_same: for float-free documents the compact and the pretty text both read back (through the reader proved complete for RFC 8259) to exactly the document; C02_integers_digit_exact, C02_negative_integers; C02_bounded_buffer: first min(n,len) bytes, count, NUL iff len<n; C02_string_bytes_preserved. Floats: printing model is bit-exact against the library (SpecFloat) and checked against C12's tolerance by the oracle. The library is run on std::string, ostream, custom writer, Print, Arduino String and caller buffers of every capacity 0..len+2 with guard bytes.",
    note=NOTE_COMMON + "No axioms. Print/String are the mocks of extras/tests/Helpers. Floating-point leaves are covered by correspondence + oracle, not by a theorem (see C12).",
    design="§6 C02"),
+ "C03": dict(
+   technique="Coq proofs by induction over every routine of the reader model (budget invariant, no load after the end marker, fuel sufficiency) + differential run through 13 input kinds under ASan/UBSan",
+   text="C03_terminates (the model's fuel is never exhausted, any bytes/filter/limit/config), C03_no_read_after_end (no load after NUL/end of data: what ARDUINOJSON_ASSERT(!ended_) guards, i.e. no over-read of a zero-terminated input), C03_reads_bounded, C03_budget_preserved, C03_no_fault_any_state are proved for the JSON reader model. The library is run on valid, truncated, mutated and random inputs and on headers announcing 2^32-1 elements through 13 JSON / 9 MessagePack input kinds in exactly-sized heap blocks with ARDUINOJSON_DEBUG asserts, random limits and filters, over an option matrix (slot-id 1/2/4, string-length 1/2/4, comments, NaN/Inf, unicode); every kind must give the model's code and document; each document is then traversed, serialized, measured, cleared and reused.",
+   note=NOTE_COMMON + "No axioms. Partial: absence of undefined behaviour in the compiled C++ is observed by the sanitizers on the explored inputs only; the theorems bound reads and termination on the model. MessagePack reader theorems are in progress (correspondence only for now).",
+   design="§6 C03"),
+ "C10": dict(
+   technique="Coq proofs: RFC 8259 inside the accepted language (completeness), unclosed container/string never accepted, always classified, Ok => nesting <= L; bounded-exhaustive differential run over token sequences x 6-16 configurations",
+   text="C10_rfc8259_accepted, C10_bytes_after_value_ignored, C10_unclosed_never_accepted (any bytes, any filter), C10_always_classified, C10_ok_within_limit, C10_source_agrees (character classes regenerated from the source, incl. the NaN/Infinity variant). The accepted language itself is the executable model; it is compared with the library on every token sequence up to length 3 (4 in thorough) over 27 tokens, random longer ones, mutations/truncations and dialect probes, in the configurations of comments x NaN x Infinity x unicode (incl. the mixed NaN-only / Infinity-only ones), with oracle rules for EmptyInput, RFC acceptance (Python json), option gating and unclosed prefixes.",
+   note=NOTE_COMMON + "No axioms. 'Exactly the documented dialect' is shown as: model == library on the explored inputs, RFC subset proved accepted, unclosed inputs proved rejected; an independent declarative definition of the lenient extensions (single quotes, unquoted keys, lenient numbers) with a soundness proof is not provided.",
+   design="§6 C10"),
+ "C18": dict(
+   technique="Coq proofs about the comparison model (antisymmetry of compare by induction with fuel independence; operator laws) + differential run of 12 operator results over ordered pairs of a value pool, variant/variant and variant/scalar",
+   text="C18_ne_is_not_eq, C18_le_is_lt_or_eq, C18_ge_is_gt_or_eq, C18_at_most_one (all values); C18_eq_symmetric and C18_lt_is_gt_swapped for values whose objects do not repeat a key; by value: C18_integers_exact (whole Z range of the model, int64/uint64 mix), C18_strings_by_bytes, C18_raw_by_bytes, C18_null_equals_only_null, C18_nan_equals_nothing. C18_symmetry_needs_distinct_keys is the checked refutation of the unrestricted statement (known finding). The library is run on ~12-160k ordered pairs (integers across int32/int64/uint64 boundaries, floats incl. NaN/inf/-0/2^53 neighbours, strings with NUL and high bytes, raw, nested containers, unbound) with the coherence laws and a by-value oracle.",
+   note=NOTE_COMMON + "No axioms. Known finding: duplicate-key objects (from deserializeMsgPack) compare asymmetrically. Booleans against numbers follow the code (true == 1).",
+   design="§6 C18"),
  "C15": dict(
    technique="Coq proofs by induction on the nesting budget (the model is structurally recursive on it) + differential run on towers for all limits + oracle on TooDeep position",
    text="C15_ok_nesting (Ok => nesting <= L, any input/filter/config), C15_limit_only_causes_TooDeep(+_skip) (a run not ending in TooDeep is unchanged under any larger limit: the limit has no other effect), C15_tower_refused(+_in_skipped_part) (the (L+1)-th opener is refused when met, nothing after it is read), C15_within_limit_accepted. Recursion depth <= L+1 is the structural recursion of the definition itself. Towers of [ {\"a\": 0x91 0x81 array16/32 map16/32, kept and filter-discarded, up to 10^4 openers, are run on the library for many L.",
